@@ -225,6 +225,32 @@ func configChild(args []string) (rc int) {
 	if len(args) > 0 {
 		path = args[0]
 	}
+	if os.Getenv("FSDBH_PRELUDE") == "1" {
+		// ParseConfig is a function of the file and the environment: an EARLIER call in the same process, under another
+		// environment, must not change what this one returns (no hidden state, no shared default values)
+		saved := map[string]string{}
+		for _, n := range docEnv {
+			if v, ok := os.LookupEnv(n); ok {
+				saved[n] = v
+			}
+			os.Unsetenv(n)
+		}
+		pre := map[string]string{"ROOT_DIRS": "/mnt/prelude", "PORT": "1", "DB_PATH": "prelude_db", "DIR_COUNT": "7", "GC_PERIOD": "7s",
+			"NUM_WORKERS": "7", "SEND_DURATION": "7ms"}
+		for _, n := range docEnv {
+			if v, ok := pre[n]; ok {
+				os.Setenv(n, v)
+			}
+		}
+		_, _ = config.ParseConfig("")
+		_, _ = config.ParseConfig(path)
+		for _, n := range docEnv {
+			os.Unsetenv(n)
+		}
+		for n, v := range saved {
+			os.Setenv(n, v)
+		}
+	}
 	conf, err := config.ParseConfig(path)
 	if err != nil {
 		fmt.Println("err parse")
@@ -278,7 +304,19 @@ func parseCase(self, scratch string, t []string) string {
 	if err := cmd.Run(); err != nil {
 		return "CHILDFAIL " + strings.ReplaceAll(err.Error()+" "+errb.String(), "\n", " ")
 	}
-	return strings.TrimSpace(out.String())
+	res := strings.TrimSpace(out.String())
+	// the same case once more in a process that has already parsed a configuration under another environment
+	cmd2 := exec.Command(self, "config-child", path)
+	cmd2.Env = append(append([]string{}, env...), "FSDBH_PRELUDE=1")
+	var out2 bytes.Buffer
+	cmd2.Stdout = &out2
+	if err := cmd2.Run(); err != nil {
+		return "CHILDFAIL(prelude) " + err.Error()
+	}
+	if r2 := strings.TrimSpace(out2.String()); r2 != res {
+		return "STATEFUL " + r2 + " <> " + res
+	}
+	return res
 }
 
 func validCase(t []string) (res string) {
